@@ -192,12 +192,25 @@ func (dc *TraditionalDnsConn) readResp() (payload *[]byte, err error) {
 
 // readLoop reads DnsConn until there was a read error.
 func (dc *TraditionalDnsConn) readLoop() {
+	// The query whose reply was dispatched last. Its queue entry is removed by its
+	// caller a moment later and must not be taken for a query that is still waiting.
+	var lastRid uint16
+	var lastChan chan<- *[]byte
 
 	for {
 		// Do not overwrite the (shorter) waiting-reply deadline armed by exchange().
 		dc.readDeadlineMu.Lock()
 		if !dc.waitingResp.Load() {
-			dc.c.SetReadDeadline(time.Now().Add(dc.idleTimeout))
+			if dc.hasOtherWaiters(lastRid, lastChan) {
+				// Other queries are still in flight: the connection is not idle, and a
+				// reply is still owed. Keep the waiting-reply deadline for them instead of
+				// the idle deadline, which may be much longer (a lost reply would keep its
+				// caller waiting for the whole idle timeout) or shorter than a reply takes.
+				dc.waitingResp.Store(true)
+				dc.c.SetReadDeadline(time.Now().Add(waitingReplyTimeout))
+			} else {
+				dc.c.SetReadDeadline(time.Now().Add(dc.idleTimeout))
+			}
 		}
 		dc.readDeadlineMu.Unlock()
 		r, err := dc.readResp()
@@ -218,7 +231,20 @@ func (dc *TraditionalDnsConn) readLoop() {
 		} else {
 			pool.ReleaseBuf(r)
 		}
+		lastRid, lastChan = rid, resChan
 	}
+}
+
+// hasOtherWaiters reports whether a query other than the one identified by
+// (qid, c) is waiting for its reply.
+func (dc *TraditionalDnsConn) hasOtherWaiters(qid uint16, c chan<- *[]byte) bool {
+	dc.queueMu.RLock()
+	defer dc.queueMu.RUnlock()
+	n := len(dc.queue)
+	if cur := dc.queue[uint32(qid)]; cur != nil && c != nil && (chan<- *[]byte)(cur) == c {
+		n--
+	}
+	return n > 0
 }
 
 func (dc *TraditionalDnsConn) IsClosed() bool {
